@@ -4,7 +4,12 @@ import fsm_common as fc
 from common import diff_run
 
 LEVEL = "proof"
-RULE = ("the C10 op scripts (modes mixed / solid / aligned, see C10) with more close/reopen/clear/release traffic; after every operation the free-extent tree "
+RULE = ("the C10 op scripts (modes mixed / solid / aligned, boundary rounds, see C10) with more close/reopen/clear/release traffic; "
+        "rounds that close a file WITHOUT A SINGLE FREE BLOCK (empty free-extent tree: _fsm_close writes no header and does "
+        "not trim) after 0..2 bitmap relocations, with / without a sync before or after the space is used up, trim / no-trim, "
+        "then reopen: same bitmap area, same allocated blocks, same file size, live regions known, nothing to hand out; the "
+        "file header (bitmap offset/length, counters) is read back through a separate descriptor and compared with what the "
+        "model says was written last; after every operation the free-extent tree "
         "(in-order walk of the AVL tree), lfbkoff/lfbklen and the bitmap of the implementation are compared with the "
         "model and the oracle checks tree = maximal zero runs of the bitmap, set bits = header + bitmap + live regions, "
         "file size after close, state after reopen/clear; plus direct queries of _fsm_find_next_set_bit / "
